@@ -13,7 +13,7 @@
 (* replayed on the real functions by vh-merkle (ranks -> real relays       *)
 (* sorted by their real hashes).                                           *)
 (***************************************************************************)
-EXTENDS MerkleOps, SequencesExt, Json
+EXTENDS MerkleOps, SequencesExt, FiniteSetsExt, Json
 
 CONSTANTS NMin, NMax,        \* numbers of relays
           Variants,          \* subset of {"pre", "post"}
@@ -29,7 +29,7 @@ vars == <<cur, hist>>
 
 DupSets(n) ==
     IF Mode # "dups" THEN {{}}
-    ELSE {D \in SUBSET (1..(n - 1)) : Cardinality(D) >= 1 /\ Cardinality(D) <= (IF n <= MaxDupN THEN MaxDups ELSE 1)}
+    ELSE UNION {kSubset(k, 1..(n - 1)) : k \in 1..(IF n <= MaxDupN THEN MaxDups ELSE 1)}
 
 TreeCases ==
     UNION {{[kind |-> "tree", v |-> v, n |-> n, D |-> D, i |-> i] : v \in Variants, D \in DupSets(n), i \in 0..(n - 1)}
